@@ -904,6 +904,51 @@ func isSentinel(v ssa.Value) bool {
 	return ok && ir.IsErrorType(g.Type().Underlying().(*types.Pointer).Elem())
 }
 
+// cacheAfterHolds: instruction `at` of fn (a NodeCache.Add, or the call of a helper that makes one) lies on the
+// nil-error edge of a Persist.Load / Persist.Store call of fn. An Add in a private helper that is only ever called
+// (`m.cacheNode(key, node)`) is judged at each of the helper's call sites instead (depth ≤ 2).
+func cacheAfterHolds(c *Ctx, fn *ssa.Function, at ssa.Instruction, depth int) (bool, string) {
+	ok := false
+	via := ""
+	for _, cj := range CallsOf(fn) {
+		e := c.Facts.External(cj)
+		if e != "Persist.Load" && e != "Persist.Store" {
+			continue
+		}
+		call, isCall := cj.(*ssa.Call)
+		if !isCall {
+			continue
+		}
+		var errV ssa.Value = call
+		if call.Call.Signature().Results().Len() > 1 && call.Referrers() != nil {
+			errV = nil
+			for _, r := range *call.Referrers() {
+				if ex, isEx := r.(*ssa.Extract); isEx && ex.Index == ir.ErrorResultIndex(call.Call.Signature()) {
+					errV = ex
+				}
+			}
+		}
+		if errV == nil {
+			continue
+		}
+		if (at.Block() == cj.Block() || cj.Block().Dominates(at.Block())) && nilFactOn(at.Block(), errV, true) {
+			ok, via = true, e
+		}
+	}
+	if ok || depth >= 2 {
+		return ok, via
+	}
+	sites := ""
+	held, _ := viaCallers(c, fn, at, nil, func(_ func(string) string, site ssa.Instruction) bool {
+		k, v := cacheAfterHolds(c, site.Parent(), site, depth+1)
+		if k {
+			sites = v + " at every call of " + fn.Name()
+		}
+		return k
+	})
+	return held, sites
+}
+
 func runCACHEAFTER(c *Ctx) {
 	P := c.P
 	for _, fn := range P.Funcs {
@@ -915,33 +960,7 @@ func runCACHEAFTER(c *Ctx) {
 				continue
 			}
 			pos := P.InstrPos(ci)
-			ok := false
-			via := ""
-			for _, cj := range CallsOf(fn) {
-				e := c.Facts.External(cj)
-				if e != "Persist.Load" && e != "Persist.Store" {
-					continue
-				}
-				call, isCall := cj.(*ssa.Call)
-				if !isCall {
-					continue
-				}
-				var errV ssa.Value = call
-				if call.Call.Signature().Results().Len() > 1 && call.Referrers() != nil {
-					errV = nil
-					for _, r := range *call.Referrers() {
-						if ex, isEx := r.(*ssa.Extract); isEx && ex.Index == ir.ErrorResultIndex(call.Call.Signature()) {
-							errV = ex
-						}
-					}
-				}
-				if errV == nil {
-					continue
-				}
-				if (ci.Block() == cj.Block() || cj.Block().Dominates(ci.Block())) && nilFactOn(ci.Block(), errV, true) {
-					ok, via = true, e
-				}
-			}
+			ok, via := cacheAfterHolds(c, fn, ci, 0)
 			if ok {
 				c.OK(pos, "NodeCache.Add in "+ir.FuncName(fn), "on the nil-error edge of "+via, false)
 			} else {
